@@ -14,9 +14,6 @@ import YashModel.Executor.Model
 import YashModel.Executor.Spec
 open YashModel YashModel.Executor YashModel.Proto
 
-/-- step budget shared with the harness (`MAX_STEPS` in c15.rs) -/
-def maxSteps : Nat := 4000
-
 def parseAction (t : String) : Option Action :=
   match t.toList with
   | ['Y'] => some .yield
@@ -156,8 +153,6 @@ structure VRun where
   x : XState
   toks : List String := []
   lost : List Nat := []
-  /-- a waker was dropped or the executor is gone: tasks may be abandoned on purpose -/
-  abandoned : Bool := false
   verdict : Option String := none
 
 def wcStr (x : XState) : String := if x.dead then "x" else toString x.s.queue.length
@@ -167,58 +162,59 @@ def wcStr (x : XState) : String := if x.dead then "x" else toString x.s.queue.le
 def checkV (r : VRun) : Option String :=
   let s := r.x.s
   if !nodupB s.queue then some "queue-dup"
-  else if !r.abandoned && !noLostB s then some "lost-wakeup"
-  else if !r.abandoned && !stallB s then some "stalled-not-waiting"
+  else if !r.x.abandoned && !noLostB s then some "lost-wakeup"
+  else if !r.x.abandoned && !stallB s then some "stalled-not-waiting"
   else if !noPollAfterFinB s.log then some "poll-after-complete"
   else if !bracketedB s.log then some "reentrant-poll"
   else if !relayB s then some "relay-not-once"
   else if s.bad then some "panic-branch"
   else none
 
+/-- one operation: the new state is `xRun` of the model; the token is read off the states -/
 def vOp (nch : Nat) (r : VRun) (op : XOp) : VRun :=
   let x := r.x
+  let x' := xRun x op
   let idx (k i : Nat) : Bool := ((x.s.waiters k)[i]?).isSome
-  let (x', tok, ab) : XState × String × Bool :=
+  let tok : String :=
     match op with
     | .step =>
-      if x.dead then (x, "s:x", false) else
+      if x.dead then "s:x" else
       match stepObs x.s with
-      | none => (x, "s:-", false)
-      | some (s', tok, _) => ({ x with s := s' }, tok, false)
+      | none => "s:-"
+      | some (_, tok, _) => tok
     | .rus =>
-      if x.dead then (x, "u:x", false) else
+      if x.dead then "u:x" else
       let res := runUntilStalled maxSteps x.s 0
-      let polls := (res.1.log.drop x.s.log.length).filterMap fun
+      let polls := (x'.s.log.drop x.s.log.length).filterMap fun
         | .ret t b => some s!"{t}{if b then "r" else "p"}"
         | _ => none
-      ({ x with s := res.1 }, s!"u{res.2.1}[{",".intercalate polls}]", false)
-    | .wake k i => if idx k i then let y := xApply x nch op; (y, wcStr y, false) else (x, ".", false)
-    | .byRef k i => if idx k i then let y := xApply x nch op; (y, wcStr y, false) else (x, ".", false)
-    | .clone k i => if idx k i then let y := xApply x nch op; (y, wcStr y, false) else (x, ".", false)
-    | .drop k i => if idx k i then let y := xApply x nch op; (y, wcStr y, true) else (x, ".", false)
-    | .signal _ => let y := xApply x nch op; (y, wcStr y, false)
-    | .dropExec => (xApply x nch op, "X", true)
-    | .try_ c =>
-      if c < x.s.ntasks && !((List.range x.s.ntasks).any fun t => (x.s.kids t).contains c) then (xApply x nch op, s!"t:{showErr (tryRecvTask x.s nch c).2}", false) else (x, ".", false)
+      s!"u{res.2.1}[{",".intercalate polls}]"
+    | .wake k i => if idx k i then wcStr x' else "."
+    | .byRef k i => if idx k i then wcStr x' else "."
+    | .clone k i => if idx k i then wcStr x' else "."
+    | .drop k i => if idx k i then wcStr x' else "."
+    | .signal _ => wcStr x'
+    | .dropExec => "X"
+    | .try_ c => if c < x.s.ntasks && !heldByParent x.s c then s!"t:{showErr (tryRecvTask x.s nch c)}" else "."
     | .spawn =>
       match x.s.pool with
-      | [] => (x, ".", false)
-      | _ => if x.dead then (x, "p:refused", false) else let y := xApply x nch op; (y, s!"p:{y.s.queue.length}", false)
+      | [] => "."
+      | _ => if x.dead then "p:refused" else s!"p:{x'.s.queue.length}"
   let newly := (List.range x'.s.ntasks).filter fun t => lostB x'.s nch t && !r.lost.contains t
   let tok := if newly.isEmpty then tok else s!"{tok}!{".".intercalate (newly.map toString)}"
-  let r' : VRun := { r with x := x', toks := tok :: r.toks, lost := r.lost ++ newly, abandoned := r.abandoned || ab }
+  let r' : VRun := { r with x := x', toks := tok :: r.toks, lost := r.lost ++ newly }
   let v := match r.verdict with
     | some e => some e
     | none =>
       match checkV r' with
       | some e => some s!"{e}@{r'.toks.length}"
-      | none => if !r'.abandoned && !newly.isEmpty then some s!"task-lost@{r'.toks.length}" else none
+      | none => if !x'.abandoned && !newly.isEmpty then some s!"task-lost@{r'.toks.length}" else none
   { r' with verdict := v }
 
 def showRecvV (s : State) (nch : Nat) (c : Nat) : String :=
   let r1 := tryRecvTask s nch c
-  let r2 := tryRecvTask r1.1 nch c
-  s!"{c}:{showErr r1.2}/{showErr r2.2}"
+  let r2 := tryRecvTask (takeValue s c) nch c
+  s!"{c}:{showErr r1}/{showErr r2}"
 
 def runV (line : String) : String :=
   match line.splitOn ";" with
